@@ -62,6 +62,7 @@ func c07History(c *vc.Ctx, idx int) {
 	for b := 0; b < cfg.Blocks && !h.failed; b++ {
 		// hostile extras on top of the random locking workload
 		extraHot := false
+		multiHot := false
 		if b%4 == 1 {
 			// a lock batch over several validators, one of which does not exist (or an unknown token for
 			// a candidate): the batch fails part-way, and how far it gets must not depend on map order
@@ -82,7 +83,19 @@ func c07History(c *vc.Ctx, idx int) {
 				setVote(bad, v2)
 				dep := &bitcointypes.MsgNewDeposits{Proposer: g.Proposer.AddrStr, BlockHeaders: []*bitcointypes.BlockHeader{{Height: 1, Raw: make([]byte, 80)}},
 					Deposits: []*bitcointypes.Deposit{{Version: 0, BlockNumber: 1, TxIndex: 1, NoWitnessTx: make([]byte, 100), EvmAddress: make([]byte, 20), RelayerPubkey: h.ch.W.BtcKey}}}
-				for i, m := range []sdkMsg{good, bad, dep} {
+				// a deposit batch with several headers and items that are wrong in different ways (stale hash of a
+				// voted height, height never voted, undecodable tx): whichever is met first must not depend on map order
+				mk := func(h uint64, tag int) *bitcointypes.BlockHeader {
+					raw := append(world.Derive(c.Seed, "c07hdr", b*10+tag), world.Derive(c.Seed, "c07hdr2", b*10+tag)...)
+					return &bitcointypes.BlockHeader{Height: h, Raw: append(raw, make([]byte, 16)...)}
+				}
+				multi := &bitcointypes.MsgNewDeposits{Proposer: g.Proposer.AddrStr,
+					BlockHeaders: []*bitcointypes.BlockHeader{mk(1, 1), mk(bm.tip+40, 2), mk(2, 3), mk(bm.tip+41, 4)}}
+				for k, hh := range []uint64{bm.tip + 40, 2, 1, bm.tip + 41} {
+					multi.Deposits = append(multi.Deposits, &bitcointypes.Deposit{Version: uint32(k % 2), BlockNumber: hh, TxIndex: uint32(k), NoWitnessTx: make([]byte, 100+k), EvmAddress: make([]byte, 20), RelayerPubkey: h.ch.W.BtcKey})
+				}
+				multiHot = true
+				for i, m := range []sdkMsg{good, bad, dep, multi} {
 					raw, err := h.ch.W.SignTx(world.TxSpec{Msgs: []sdkMsg{m}, Priv: g.Proposer.Tx, AccNum: num, Seq: seq + uint64(i)})
 					if err == nil {
 						txs = append(txs, raw)
@@ -138,7 +151,7 @@ func c07History(c *vc.Ctx, idx int) {
 				leaving++
 			}
 		}
-		if extraHot || leaving >= 2 {
+		if extraHot || multiHot || leaving >= 2 {
 			hot = append(hot, blk.Height)
 		}
 		if failing > 0 || extraHot || leaving >= 2 {
@@ -256,7 +269,7 @@ func c07Diff(p, o world.Outcome) c07d {
 func init() {
 	vc.Register(&vc.Check{
 		ID: "C07", Title: "State transition is deterministic across replicas, re-execution and restart", Level: "exploration",
-		Rule: "one case = one adversarial history (36/110 blocks: random locking requests incl. unknown validators/tokens, every 4th block a lock batch over 3..6 validators with one failing entry in shuffled order, every 5th block valid/invalid/malformed relayer messages, evidence, churn) recorded once on a primary and re-executed by replicas: " +
+		Rule: "one case = one adversarial history (36/110 blocks: random locking requests incl. unknown validators/tokens, every 4th block a lock batch over 3..6 validators with one failing entry in shuffled order, every 5th block valid/invalid/malformed relayer messages incl. a deposit batch with four headers and items that are wrong in different ways, evidence, churn) recorded once on a primary and re-executed by replicas: " +
 			"R1 fresh node in the same process, R2 another OS process with GOMAXPROCS=1, R3 another process built with the race detector at GOMAXPROCS=16, R4 a goleveldb node closed and reopened before every block, R5 every block finalised, crashed before Commit, reopened and finalised again (blocks driving the map-ordered loops: 16 such rounds); " +
 			"compared per height: app hash, every tx's code/codespace/data/gas wanted/gas used, validator updates as a set, engine calls (method + arguments). Replicas start >= 1.1 s after the primary. Non-trivial = a block with a failing transaction, a hot lock batch or >= 2 validators leaving; distinct = (failing txs, hot, leaving, txs).",
 		Assume: []string{"dependence on clock fields coarser than a second cannot be provoked (no clock virtualisation for Go binaries here)", "map-order dependence is exposed only with the probability Go's per-loop randomisation gives: >= 17 executions of every hot block"},
